@@ -449,6 +449,32 @@ pub fn run(ctx: &Ctx) -> i32 {
             }
         }
     }
+    // split and capture patterns in one table, in every definition order (a column per pattern, plus one over a pattern
+    // that often does not match)
+    {
+        let pa = cap("a", "k=(\\w+)");
+        let pb = cap("b", "id=(\\d+)");
+        let pc = cap("c", "^never (x)$");
+        let sp = Pattern { name: "f".into(), regex: " ".into(), split: true, inline: false };
+        let base = [pa, pb, sp, pc];
+        for perm in permutations(4) {
+            let pats: Vec<Pattern> = perm.iter().map(|i| base[*i].clone()).collect();
+            let idx = |name: &str| pats.iter().position(|p| p.name == name).unwrap();
+            let t = Table {
+                patterns: pats.clone(),
+                cols: vec![
+                    Col { refs: vec![(idx("a"), 1)], ty: "text", modifier: "" },
+                    Col { refs: vec![(idx("b"), 1)], ty: "int", modifier: "" },
+                    Col { refs: vec![(idx("f"), 2)], ty: "text", modifier: "DEFAULT" },
+                    Col { refs: vec![(idx("c"), 1)], ty: "text", modifier: "" },
+                    Col { refs: vec![(idx("f"), 1), (idx("b"), 1)], ty: "text[]", modifier: "" },
+                ],
+            };
+            for l in ["k=v id=7 z", "id=7", "k=v", "zzz", "never x", "k=v k=w id=1 id=2", ""] {
+                work.push((t.clone(), l.to_string(), "F-multi-pattern"));
+            }
+        }
+    }
     // TIMESTAMP read from one group: every single-character substitution / deletion / insertion of a valid literal
     {
         let base: Vec<char> = "2021-06-01 16:55:11".chars().collect();
